@@ -380,7 +380,7 @@ theorem idcstar_sound_fragment_exchange (M : Model) (ν : BaseValues) (dom : Nam
     | ok u => rw [h1] at h; cases h
   | ok r =>
     obtain ⟨cf0, o0⟩ := r
-    obtain ⟨nev0, rfl, _⟩ := frag_facts hord hG hdl hbl hfrC.frag (by simp) hcg0
+    obtain ⟨nev0, rfl, _⟩ := frag_facts hord hG hdl hbl hfrC.frag.to2 (by simp) hcg0
     rcases (hsplit cf0 nev0 hcg0).2 with hall | hnone
     · -- every outcome descends from `X`
       apply idcStarFuel_sound_fragX_all ordf dordf kordf G M ν dom hM (fun pmf hp => (hnorm pmf hp).2) hdom hG hdl hbl hord hdo
